@@ -27,6 +27,7 @@ LeafAsts ==
   \cup {Leaf("older", n) : n \in Olders} \cup {Leaf("after", n) : n \in Afters}
   \cup {Leaf(h[1], h[2]) : h \in HashLeaves}
   \cup {Ast(MultiName, mk[1], mk[2], <<>>) : mk \in MultiKs}
+  \cup {Ast("sorted" \o MultiName, mk[1], mk[2], <<>>) : mk \in MultiKs}
 
 \* pk(K) = c:pk_k(K), pkh(K) = c:pk_h(K) count as one node (they are the leaves users write)
 SugarLeafAsts ==
@@ -71,7 +72,8 @@ WorldsOf(m) == WorldsOfCtx(m, Ctx)
 (***************************************************************************)
 (* Families beyond the exhaustive node bound (shared by the generators)    *)
 (***************************************************************************)
-CONSTANTS CompStride,  \* 0: no composites; else the pools are thinned to every CompStride-th element
+CONSTANTS NCKeep,      \* 0: no nested-choice / threshold-mix families; else keep every NCKeep-th nested choice
+          CompStride,  \* 0: no composites; else the pools are thinned to every CompStride-th element
           CompKeep,    \* of the typed composites keep every CompKeep-th
           CompSeed     \* offset of the kept residue classes (from VERIF_SEED)
 
@@ -84,7 +86,10 @@ CONSTANTS CompStride,  \* 0: no composites; else the pools are thinned to every 
 (***************************************************************************)
 \* the pools are thinned BEFORE combination (cost is quadratic / cubic in pool size):
 \* every CompStride-th element, residue class chosen by the seed
-Thin(S, stride, off) == LET Q == SetToSeq(S) IN {Q[q] : q \in {r \in 1..Len(Q) : r % stride = off % stride}}
+\* (Q is bound through a singleton comprehension: a LET definition would be re-evaluated, i.e. the
+\* whole set re-enumerated, once per selected element)
+Thin(S, stride, off) ==
+  CHOOSE R \in {{Q[q] : q \in {r \in 1..Len(Q) : r % stride = off % stride}} : Q \in {SetToSeq(S)}} : TRUE
 P3 == IF CompStride = 0 THEN {} ELSE Thin(WTUpTo(IF MaxNodes < 3 THEN MaxNodes ELSE 3), CompStride, CompSeed)
 P2 == IF CompStride = 0 THEN {} ELSE Thin(WTUpTo(2), (CompStride + 1) \div 2, CompSeed)
 P2all == IF CompStride = 0 THEN {} ELSE WTUpTo(2)
@@ -119,7 +124,7 @@ Comp2Kept == IF CompStride = 0 THEN {}
 RECURSIVE ShiftKeys(_)
 ShiftKeys(m) ==
   IF m.f \in {"pk_k", "pk_h"} THEN [m EXCEPT !.n = m.n + 1]
-  ELSE IF m.f \in {"multi", "multi_a"} THEN [m EXCEPT !.ks = [q \in 1..Len(m.ks) |-> m.ks[q] + 1]]
+  ELSE IF m.f \in {"multi", "multi_a", "sortedmulti", "sortedmulti_a"} THEN [m EXCEPT !.ks = [q \in 1..Len(m.ks) |-> m.ks[q] + 1]]
   ELSE [m EXCEPT !.xs = [q \in 1..Len(m.xs) |-> ShiftKeys(m.xs[q])]]
 PrefixedKept ==
   IF CompStride = 0 THEN {}
@@ -173,5 +178,45 @@ LockMixAsts ==
                Bin("and_v", Un("v", LkB(1, a)), Bin("or_i", LkB(2, c), LkB(3, d))),
                Thresh(2, <<LkU(1, a), Un("a", LkU(2, c)), Un("a", LkU(3, d))>>)} : a \in Locks4, c \in Locks4, d \in Locks4}
 LockMix(on) == IF on = 0 THEN {} ELSE {x.a : x \in OkOnly({T(m, TypeOf(m, Ctx)) : m \in LockMixAsts})}
+
+(***************************************************************************)
+(* Nested choices: a choice inside a choice over a handful of atoms (keys, *)
+(* a hash, both kinds of lock), every or-combinator at both levels, both   *)
+(* nesting sides, every wrapper the typing needs; plus andor over atoms.   *)
+(* This is where the satisfier's chooser (cost comparison, has_sig         *)
+(* bookkeeping, non-malleable refusal) has real work to do.  Fragments     *)
+(* with a signature-less path are made sane by the signed prefix.          *)
+(***************************************************************************)
+NCAtoms == {Un("c", Leaf("pk_k", 1)), Un("c", Leaf("pk_k", 2)), Un("c", Leaf("pk_k", 3)),
+            Leaf("older", 10), Leaf("after", 100), Leaf("sha256", 1)}
+NCSlots(S) == S \cup {Un(w, x) : w \in {"a", "s", "v"}, x \in S}
+NCOrs == {"or_i", "or_d", "or_b", "or_c"}
+NCOk(S) == {x \in S : TypeOf(x, Ctx).ok}
+NoDupKeys(m) == LET ks == KeysPre(m) IN Cardinality(Range(ks)) = Len(ks)
+\* (operators with a dummy parameter: TLC evaluates every zero-arity constant definition at
+\* start-up, also in modules that never use it)
+NCInner(dummy) == NCOk({Bin(g, p, q) : g \in NCOrs, p \in NCAtoms, q \in NCSlots(NCAtoms)})
+NCOuterOf(I) == NCOk({Bin(f, x, q) : f \in NCOrs, x \in I, q \in NCSlots(NCAtoms)}
+                     \cup {Bin(f, p, q) : f \in NCOrs, p \in NCAtoms, q \in NCSlots(I)}
+                     \cup {Tern("andor", p, q, r) : p \in NCAtoms, q \in NCAtoms \cup I, r \in NCAtoms})
+NCSigned(x) == IF "s" \in TypeOf(x, Ctx).fl THEN x
+               ELSE Bin("and_v", Un("v", Un("c", Leaf("pk_k", 1))), ShiftKeys(x))
+NestedChoice(keep, off) ==
+  IF keep = 0 THEN {}
+  ELSE LET B == {x \in NCOuterOf(NCInner(0)) : TypeOf(x, Ctx).b = "B" /\ NoDupKeys(x) /\ KeyCanonical(x)}
+       IN {y \in {NCSigned(x) : x \in Thin(B, keep, off)} : TypeOf(y, Ctx).ok}
+
+(***************************************************************************)
+(* Threshold mix: thresh(k, B, W, W) for every k over members of different *)
+(* nature - keys, a hash lock with a unique dissatisfaction (l:t:v:sha256),*)
+(* a relative lock (l:n:older), a 1-of-2 multisig - under both W wrappers. *)
+(***************************************************************************)
+TMHash0(dummy) == Bin("or_i", Leaf("0", 0), Bin("and_v", Un("v", Leaf("sha256", 1)), Leaf("1", 0)))
+TMLock0(dummy) == Bin("or_i", Leaf("0", 0), Un("n", Leaf("older", 10)))
+TMB(dummy) == {Un("c", Leaf("pk_k", 1)), TMHash0(0), TMLock0(0), Ast(MultiName, 1, <<1, 2>>, <<>>)}
+TMW(dummy) == {Un(w, Un("c", Leaf("pk_k", k))) : w \in {"a", "s"}, k \in {2, 3, 4}} \cup {Un("a", TMHash0(0)), Un("s", TMLock0(0)), Un("a", TMLock0(0))}
+ThreshMix(on) ==
+  IF on = 0 THEN {}
+  ELSE {x \in NCOk({Thresh(k, <<b, w1, w2>>) : k \in 1..3, b \in TMB(0), w1 \in TMW(0), w2 \in TMW(0)}) : NoDupKeys(x) /\ KeyCanonical(x)}
 
 =============================================================================
